@@ -1273,14 +1273,19 @@ where
             if !removed_postings.contains(&token) {
                 continue;
             }
-            anda_db_utils::verif_point!("purge_ids:postings.get(unlist)");
-            let unlist = match self.postings.get(&token) {
-                Some(posting) => posting.0 != bucket_id,
-                None => true,
-            };
+            // Re-check the posting while holding the bucket guard, exactly
+            // like `remove`: a concurrent insert that re-creates the posting
+            // either is visible here (keep the token listed) or lists the
+            // token itself afterwards.
             anda_db_utils::verif_point!("purge_ids:buckets.get_mut(unlist)");
-            if unlist && let Some(mut bucket) = self.buckets.get_mut(&bucket_id) {
-                bucket.tokens.swap_remove_if(|k| k == &token);
+            if let Some(mut bucket) = self.buckets.get_mut(&bucket_id) {
+                let unlist = match self.postings.get(&token) {
+                    Some(posting) => posting.0 != bucket_id,
+                    None => true,
+                };
+                if unlist {
+                    bucket.tokens.swap_remove_if(|k| k == &token);
+                }
             }
         }
 
